@@ -44,8 +44,8 @@ CONTENTS["cbigstr"] = b'["' + b"a" * 9000 + b"\\n" + b"b" * 3000 + b'"]\n'
 # operands that reach the library as a reader although they are named by a path: a FIFO (mmap fails).
 # (An EMPTY regular file does get mapped - memmap2 returns an empty mapping - so it is slice input, and an
 # empty YAML file therefore meets the recorded yaml_void deviation: error from a file, nothing from a pipe.)
-READER_FILES = {"fifo.yaml"}
-FIFOS = {"fifo.yaml": "cy"}
+READER_FILES = {"fifo.yaml", "fifo.toml"}
+FIFOS = {"fifo.yaml": "cy", "fifo.toml": "cj"}     # fifo.toml: JSON text behind a name that says TOML (the name decides: it fails)
 STDIN = "cy"
 FMTS = ["json", "msgpack", "toml", "yaml"]
 
@@ -223,6 +223,41 @@ def run_real(binary, argv, root, stdout_kind, stdin_bytes):
         os.close(master)
         rc = p.returncode
         return {"exit": rc if rc >= 0 else None, "signal": -rc if rc < 0 else 0, "stdout": out.replace(b"\r\n", b"\n"), "stderr": err, "timeout": False}
+    if stdout_kind == "slowpipe":
+        # a consumer that starts reading late: xt sits on a full pipe when a later input fails
+        with cli.FORK_LOCK:
+            p = subprocess.Popen([binary] + argv, stdin=subprocess.PIPE, stdout=subprocess.PIPE, stderr=subprocess.PIPE, cwd=cwd)
+        import threading
+
+        def feed_in():
+            try:
+                p.stdin.write(stdin_bytes)
+                p.stdin.close()
+            except (BrokenPipeError, OSError, ValueError):
+                pass
+        errbuf = []
+        threading.Thread(target=feed_in, daemon=True).start()
+        te = threading.Thread(target=lambda: errbuf.append(p.stderr.read()), daemon=True)
+        te.start()
+        time.sleep(0.4)
+        out = b""
+        while True:
+            d = os.read(p.stdout.fileno(), 4096)
+            if not d:
+                break
+            out += d
+            if len(out) < 300000:
+                time.sleep(0.0005)
+        try:
+            p.wait(timeout=90)
+            to = False
+        except subprocess.TimeoutExpired:
+            p.kill()
+            p.wait()
+            to = True
+        te.join(5)
+        rc = p.returncode
+        return {"exit": rc if rc >= 0 else None, "signal": -rc if rc < 0 else 0, "stdout": out, "stderr": errbuf[0] if errbuf else b"", "timeout": to}
     if stdout_kind == "stdinfile":
         # standard input redirected from a REGULAR FILE (xt < file): still a stream to xt, never a mapping
         path = os.path.join(root, "stdin-content.bin")
